@@ -60,6 +60,10 @@ def run_family(sc):
 
 def run(tier, seed):
     rep = Report("C14", tier, seed)
+    rep.add_mc("MC_Ladim", tlc.model_check("MC_Ladim", "MC_Ladim.cfg" if tier == "thorough" else "MC_Ladim_quick.cfg", must_take=["Call", "AddKill"], timeout=3000),
+               note="Independent, CacheAligned with the per-particle forcing carried in the state")
+    rep.add_mc("MC_Ladim_stalecache(control)", tlc.expect_refuted("MC_Ladim", "MC_Ladim_stalecache.cfg", "CacheAligned"),
+               note="control: with the per-particle forcing kept in the forcing object (pinned design) TLC refutes CacheAligned")
     rng = random.Random(seed)
     fams = [family(rng, k) for k in range(300 if tier == "thorough" else 70)]
     res = pmap("harness.checks.c14", "run_family", fams)
